@@ -209,3 +209,58 @@ func handedOut(c *mc.Ctx, tor [8]ref.Point, lam []*big.Int) {
 		observeGlobals(w, tor, "after overwriting the result of "+h.name)
 	})
 }
+
+// selfAliased: the decoders of CompressedEdwardsY handed (a window of) the
+// receiver's OWN storage as input.  Verdict and receiver afterwards must be
+// those of decoding a separate copy of the same bytes into a receiver holding
+// the same value, and both must match the reference (error <=> not 32 bytes or
+// not on the curve; bytes kept on success, identity encoding after an error).
+// Defect of the pinned tree (reset before the aliased input was read: every
+// string accepted, identity left behind), fixed in /repo by 3d8d518.
+func selfAliased(c *mc.Ctx, E [][]byte) {
+	windows := [][2]int{{0, 32}, {0, 31}, {1, 32}, {16, 32}, {0, 0}}
+	n := len(E)
+	if !c.Thorough && n > 4000 {
+		n = 4000
+	}
+	alphed.Par(c, "self-aliased-decode", n*len(windows), func(w *mc.W, i int) {
+		init, win := E[i/len(windows)], windows[i%len(windows)]
+		lo, hi := win[0], win[1]
+		_, ok, _ := ref.Decode(init[lo:hi])
+		w.Eval(fmt.Sprintf("self-aliased-decode/decodable=%v", ok), true)
+		cas := map[string]string{"receiver": hx(init), "window": fmt.Sprintf("[%d:%d]", lo, hi)}
+		run := func(alias, setBytes bool) (bool, []byte) {
+			var p curve.CompressedEdwardsY
+			copy(p[:], init)
+			in := append([]byte{}, init[lo:hi]...)
+			if alias {
+				in = p[lo:hi]
+			}
+			var err error
+			if setBytes {
+				_, err = p.SetBytes(in)
+			} else {
+				err = p.UnmarshalBinary(in)
+			}
+			return err != nil, append([]byte{}, p[:]...)
+		}
+		// UnmarshalBinary
+		wantAfter := identityEnc
+		if ok {
+			wantAfter = init
+		}
+		eA, pA := run(true, false)
+		eC, pC := run(false, false)
+		if eA != eC || !bytes.Equal(pA, pC) || eA != !ok || !bytes.Equal(pA, wantAfter) {
+			w.Fail("CompressedEdwardsY.UnmarshalBinary/data-aliases-receiver", fmt.Sprintf("receiver holding %x, p.UnmarshalBinary(p[%d:%d]): error=%v receiver=%x; separate copy of the same bytes: error=%v receiver=%x; reference: decodable=%v", init, lo, hi, eA, pA, eC, pC, ok), cas)
+		}
+		// SetBytes: error <=> window is not 32 bytes; receiver unchanged in every case
+		sA, qA := run(true, true)
+		sC, qC := run(false, true)
+		if sA != sC || !bytes.Equal(qA, qC) || sA != (hi-lo != 32) || !bytes.Equal(qA, init) {
+			w.Fail("CompressedEdwardsY.SetBytes/data-aliases-receiver", fmt.Sprintf("receiver holding %x, p.SetBytes(p[%d:%d]): error=%v receiver=%x; separate copy: error=%v receiver=%x", init, lo, hi, sA, qA, sC, qC), cas)
+		}
+	})
+	c.Require("self-aliased-decode/decodable=true", 300)
+	c.Require("self-aliased-decode/decodable=false", 300)
+}
